@@ -112,7 +112,7 @@ def m_part(run, scr, nat):
     D = list(sem.decls)
     also = ("z3",) if run.tier == "thorough" else ()
     fetch = INPUTS + [a for (_, _, a, _) in sem.abstractions] + [b for (_, op, _, b) in sem.abstractions if op == "Div"]
-    batch = mcheck.Batch(ms, "c12", D, timeout_s=120 if run.tier == "quick" else 600)
+    batch = mcheck.Batch(ms, "c12", D, timeout_s=120 if run.tier == "quick" else 600, deltas=sem.deltas)
 
     def on_sat(what):
         def cb(model, ob, item):
@@ -169,10 +169,66 @@ def m_part(run, scr, nat):
     if n_frac < 2:
         run.inconclusive.append("M-1: expected at least two Fraction-returning paths in new_approx, found %d" % n_frac)
     batch.run()
+    validate_translator(run, ms, sem, D, results, ix, nat)
     run.samples.append({"engine": "mir-smt", "kernel": "Number::new_approx o Number::value",
                         "obligation": "(assert <path condition>) (assert (> |value(result) - x| (* x 16u))) (check-sat) = unsat",
                         "paths": len(outs), "fraction_paths": n_frac})
     ms.close()
+
+
+# the repo's own test vectors for new_approx (src/quantity.rs `fractions`, tests/fractions.rs) plus a few more
+VECTORS = [(1.0, 0.05, 4, 4294967295), (1.00000000001, 0.05, 4, 4294967295), (0.01, 0.05, 4, 4294967295), (1.9999, 0.05, 4, 4294967295),
+           (1.0001, 0.05, 4, 4294967295), (400.0001, 0.05, 4, 4294967295), (399.9999, 0.05, 4, 4294967295), (1.5, 0.05, 4, 4294967295),
+           (0.2501, 0.05, 4, 4294967295), (3.5, 0.05, 8, 5), (5.3333, 0.05, 3, 4), (0.33, 0.1, 16, 0), (7.77, 0.0, 64, 10)]
+
+
+def validate_translator(run, ms, sem, D, results, ix, nat):
+    """Serval-style validation: push concrete vectors through the real function and through the encoding (inputs
+    fixed, lookup fixed to what the real lookup returns) - exactly one path must be feasible and it must predict
+    the same kind / whole / num / den, and err within 4 ulp-units."""
+    import struct
+    bad = 0
+    for (x, acc, md, mw) in VECTORS:
+        acc32 = struct.unpack("f", struct.pack("f", acc))[0]
+        real = nat.call("new_approx", repr(x), repr(acc32), md, mw)
+        frac = x - int(x)
+        lk = nat.call("lookup", repr(frac), md) if frac >= 1e-10 else None
+        fix = ["(= x %s)" % smt.rat(Fraction(x)), "(= acc %s)" % smt.rat(Fraction(acc32)), "(= md %d)" % md, "(= mw %d)" % mw]
+        if lk:
+            fix += ["(= lk_tag 1)", "(= lk_n %d)" % lk[0], "(= lk_d %d)" % lk[1]]
+        else:
+            fix += ["(= lk_tag 0)"]
+        # product abstraction: restore the exact products for the fixed operands
+        for (pv, op, a, b) in sem.abstractions:
+            fix.append("(= %s (%s %s %s))" % (pv, "*" if op == "Mul" else "/", a, b))
+        feasible = []
+        for i, (o, num, back) in enumerate(results):
+            v, m, dt, errs = mcheck.solve_file(ms.primary, D, mcheck.pc_assert(o.pc) + fix, [], 30,
+                                               os.path.join(run.logdir, "validate.smt2"))
+            if v == "sat":
+                feasible.append((o, num))
+        run.traces_validated += 1
+        pred = None
+        if len(feasible) == 1:
+            o, num = feasible[0]
+            if o.kind == "return" and num is None:
+                pred = ("None",)
+            elif o.kind == "return" and "Regular" in num.variants:
+                pred = ("Regular",)
+            elif o.kind == "return":
+                f = num.variants["Fraction"].fields
+                v, m, dt, errs = mcheck.solve_file(ms.primary, D, mcheck.pc_assert(o.pc) + fix,
+                                                   [f[ix["whole"]].expr, f[ix["num"]].expr, f[ix["den"]].expr], 30,
+                                                   os.path.join(run.logdir, "validate.smt2"))
+                pred = ("Fraction", int(m.get(f[ix["whole"]].expr, -1)), int(m.get(f[ix["num"]].expr, -1)), int(m.get(f[ix["den"]].expr, -1)))
+        got = ("None",) if real is None else (("Regular",) if real.get("kind") == "Regular" else ("Fraction", real["whole"], real["num"], real["den"]))
+        if pred != got:
+            bad += 1
+            run.inconclusive.append("translator validation: new_approx%r: encoding predicts %s (feasible paths: %d), the real function returns %s" % (
+                (x, acc, md, mw), pred, len(feasible), got))
+    run.add_obligation("translator validation on %d concrete vectors (repo test inputs)" % len(VECTORS), "mir-smt+native",
+                       "holds" if not bad else "inconclusive", vectors=len(VECTORS), disagreements=bad)
+    run.vccs += len(VECTORS)
 
 
 def confirm(run, nat, what, models_, ob):
